@@ -21,6 +21,20 @@ pub fn run_case(toks: &[&str], em: &mut Emitter) {
                 let r = per::read_length(&mut c);
                 Obs::new(format!("w={} {}", hex(&w), match r { Ok(v) => format!("r={} left={}", v, left(&c)), Err(_) => "r=E".into() })).nt(true)
             }
+            "per_asn1_int" => {
+                let n = nat(&t[1]) as u32;
+                let w = rdp::nla::asn1::to_der(&(n as rdp::nla::asn1::Integer));
+                let mut back = 0 as rdp::nla::asn1::Integer;
+                let r = rdp::nla::asn1::from_der(&mut back, &w);
+                Obs::new(format!("w={} r={}", hex(&w), match r { Ok(_) => back.to_string(), Err(_) => "E".into() })).nt(true)
+            }
+            "per_asn1_oct" => {
+                let b = unhex(&t[1]);
+                let w = rdp::nla::asn1::to_der(&(b.clone() as rdp::nla::asn1::OctetString));
+                let mut back = rdp::nla::asn1::OctetString::new();
+                let r = rdp::nla::asn1::from_der(&mut back, &w);
+                Obs::new(format!("w={} r={}", hex(&w), match r { Ok(_) => hex(&back), Err(_) => "E".into() })).nt(true)
+            }
             "per_rt_int" => {
                 let n = nat(&t[1]) as u32;
                 let mut w = Cursor::new(vec![]);
@@ -93,6 +107,13 @@ fn emit(em: &mut Emitter, line: String) {
 
 /// inverse pairs over their whole domains (C18)
 pub fn generate_roundtrips(thorough: bool, r: &mut Rng, part: (usize, usize), em: &mut Emitter) {
+    // ASN.1 DER integers and octet strings (nla/asn1.rs over yasna): size boundaries of the two's-complement
+    // content and of the definite length
+    if part.0 == 0 {
+        for &n in &[0u64, 1, 0x7f, 0x80, 0xff, 0x100, 0x7fff, 0x8000, 0xffff, 0x10000, 0x7fffff, 0x800000, 0xffffff, 0x1000000, 0x7fffffff, 0x80000000, 0x80000001, 0xfffffffe, 0xffffffff] { emit(em, format!("per_asn1_int {}", n)); }
+        for _ in 0..(if thorough { 2000 } else { 200 }) { let n = r.next() as u32 >> r.below(32); emit(em, format!("per_asn1_int {}", n)); }
+        for &l in &[0usize, 1, 2, 126, 127, 128, 129, 255, 256, 257, 1000, 65535, 65536] { let b = r.bytes(l); emit(em, format!("per_asn1_oct {}", hex(&b))); }
+    }
     // all PER lengths in the domain 0..=0x7fff (and a few beyond it, where nothing is claimed)
     for n in (0..=0x7fffu32).filter(|n| (*n as usize) % part.1 == part.0) { emit(em, format!("per_rt_len {}", n)); }
     if part.0 == 0 { for n in &[0x8000u32, 0x8001, 0xffff] { emit(em, format!("per_rt_len {}", n)); } }
